@@ -57,6 +57,9 @@ func RegisterPtr(p any) {
 	}
 }
 
+// RegisterPtrID gives p an explicit ordinal (same rules as RegisterPtr).
+func RegisterPtrID(p any, id uint64) { ptrIDs[dataPtr(p)] = id }
+
 // ResetPtrs forgets all registrations.
 func ResetPtrs() { ptrIDs = map[unsafe.Pointer]uint64{}; ptrNext = 0 }
 
